@@ -23,8 +23,13 @@ def _close(a, b, rtol, scale):
         if x == y: return True
         fx, fy = float(x), float(y)
         return abs(fx - fy) <= rtol * max(1.0, abs(fx), abs(fy), scale)
-    # nulls, infinities, panics: identical tags
-    return a[0] == b[0] and (a[0] != 5 or True)
+    # DESIGN 5.6: +-inf can only come from dividing a rounding residue by an exactly-zero denominator, i.e. at a position
+    # whose window is singular in exact arithmetic (e.g. ts_vewm with min_periods 0 on an all-null window: q/(1-oma^0));
+    # there neither value nor nullness is compared.  A finite number against a null is still a difference.
+    if a[0] in (3, 4) and b[0] in (2, 3, 4): return True
+    if b[0] in (3, 4) and a[0] in (2, 3, 4): return True
+    # nulls, panics: identical tags
+    return a[0] == b[0]
 
 def compare(cmp, impl, model):
     parts = _split(impl)
@@ -72,11 +77,11 @@ def compare(cmp, impl, model):
 CFG = dict(
     bins=["c06"],
     imports=["Run.RunC01", "Run.RunC03", "Run.RunC04", "Run.RunC13"],
-    rule="part=prefix: 14 (thorough 70) structured series of length 1..9 (14) with nulls x 2 random (window, explicit min_periods) x all "
+    rule="part=prefix: 40 (thorough 90) structured series of length 1..9 (14) with nulls x 2 random (window, explicit min_periods) x all "
          "37 rolling entry points (Vec = index body / VecDeque = iterator body alternating) x EVERY cut point 0..=len (omitted "
          "min_periods added for cuts >= w): f(xs[..k]) must equal f(xs)[..k] bit for bit and agree with the model run on the prefix "
          "(1e-7, nullness exact, exactly-singular windows skipped); shift / vshift / vdiff / vpct_change for every lag 0..=len+1, "
-         "null and non-null fill, every cut. part=window: 30 (thorough 160) configurations of two different finite histories (one "
+         "null and non-null fill, every cut. part=window: 90 (thorough 240) configurations of two different finite histories (one "
          "rescaled by 8x+3, sometimes all null; length 1..12) followed by the same tail: every output whose window lies inside the tail "
          "must be identical for min / max / arg-extrema / rank and within 1e-9 relative to the history magnitude otherwise, for all 37 "
          "entry points. nt=0 marks the empty prefix.",
